@@ -1015,6 +1015,11 @@ func (e *FnEnc) lookupName(env *Env, name string, phiOver map[*ssa.Phi]Val) (Val
 			}
 		}
 	}
+	for _, p := range e.fn.FreeVars {
+		if p.Name() == name {
+			return e.vals[p], true
+		}
+	}
 	// loop-scoped names (a parameter reassigned in a loop is that loop's phi inside loop clauses)
 	if env.loopOrd > 0 && env.loopOrd <= len(e.loopList) {
 		// search this loop, then enclosing loops
@@ -1072,24 +1077,15 @@ func (e *FnEnc) lookupName(env *Env, name string, phiOver map[*ssa.Phi]Val) (Val
 			}
 		}
 	}
-	// a parameter reassigned on some path is the phi / latest binding carrying its name at the site; otherwise
-	// it is the parameter itself
-	reassigned := false
-	for _, bs := range e.debugNames[name] {
-		if _, isParam := bs.val.(*ssa.Parameter); !isParam {
-			reassigned = true
+	// outside loop clauses a parameter name denotes the argument (its value on entry), as in requires / ensures
+	for _, p := range e.fn.Params {
+		if p.Name() == name {
+			return e.vals[p], true
 		}
 	}
-	if !reassigned || env.site == nil {
-		for _, p := range e.fn.Params {
-			if p.Name() == name {
-				return e.vals[p], true
-			}
-		}
-		for _, p := range e.fn.FreeVars {
-			if p.Name() == name {
-				return e.vals[p], true
-			}
+	for _, p := range e.fn.FreeVars {
+		if p.Name() == name {
+			return e.vals[p], true
 		}
 	}
 	if strings.HasPrefix(name, "%") {
